@@ -1079,6 +1079,8 @@ func TestVerif_C27(t *testing.T) {
 			r.Event("handshakes_completed", 1)
 		} else if cfg.Tail == "deliver" {
 			r.Event("honest_handshakes_not_completed", 1)
+			r.Event("honest_handshakes_not_completed_"+cfg.Kind, 1)
+			r.Note("case %d (%s): handshake not completed in %d virtual s: dial error %v; steps %+v retry=%v big_ch=%v", c.Index, cfg.Kind, cfg.RunS, res.dialErr, cfg.Steps, cfg.Retry, cfg.BigClientHello)
 		}
 		r.Event("whitebox_conn_samples", int64(res.wbConns))
 		r.Event("whitebox_samples_blocked_(limit<128)", int64(res.wbBlocked))
